@@ -8,7 +8,7 @@ from typing import Dict, List, Optional, Tuple
 
 from ..defuse import assignments, call_arg, names_in
 from ..model import AnalysisError, Func, Program, norm, parent, short, walk_own, walk_body
-from ..pathcond import Lit, PathAnalysis, atoms_of, entails, show, show_text
+from ..pathcond import plain, Lit, PathAnalysis, atoms_of, entails, show, show_text
 from ..report import Result
 from ..textflow import CHARS, LINES, WHOLE, TextFlow
 
@@ -194,7 +194,7 @@ def find_skip_test(prog: Program, fn: Func):
 
 
 # ------------------------------------------------------------------------------------------------ the check
-LATER_RULES = ' Later rules: R20.1/R20.2 identify the skip test by interpreting it on probe files (sa/strexpr.py) and require all 49 skip_file probes to be recognised; R20.5 also decides what a line is (tokenizer lines); (R20.8) the sink gets the text as returned.'
+LATER_RULES = ' Later rules: R20.1/R20.2 identify the skip test by interpreting it on probe files (sa/strexpr.py) and require all 49 skip_file probes to be recognised; R20.5 also decides what a line is (tokenizer lines); (R20.8) the sink gets the text as returned. (R20.9) a fast path of has_ignore_comment that answers no before the lines are examined tests for a text every match of the pattern contains (mandatory factor of the regex AST).'
 
 
 def check(prog: Program, tier: str) -> Result:
@@ -438,6 +438,35 @@ def _r20_8(prog: Program, res: Result) -> None:
         raise AnalysisError("R20.8: no statement writing the result of format_code found")
 
 
+def _mandatory_factors(pattern: str) -> List[str]:
+    """Maximal runs of literal characters that every match of the pattern contains (top-level sequence of the regex AST;
+    groups without alternatives are entered; anything optional, repeated or branching ends a run)."""
+    import re._parser as sre_parse
+    runs: List[str] = []
+    cur: List[str] = []
+
+    def flush():
+        if cur:
+            runs.append("".join(cur))
+            cur.clear()
+
+    def walk(seq):
+        for op, av in seq:
+            name = str(op)
+            if name == "LITERAL":
+                cur.append(chr(av))
+            elif name == "SUBPATTERN" and av[1] == 0 and av[2] == 0:
+                walk(av[3])
+            else:
+                flush()
+    try:
+        walk(sre_parse.parse(pattern))
+    except Exception:
+        return []
+    flush()
+    return runs
+
+
 def _r20_5(prog: Program, res: Result) -> None:
     fn = prog.func("core", "has_ignore_comment")
     if len(fn.posparams) < 2:
@@ -520,6 +549,34 @@ def _r20_5(prog: Program, res: Result) -> None:
                    "a True answer is not conditioned on both (line overlaps range) and (line matches the ignore pattern)")
     if not trues:
         res.bad("R20.5", fn.loc(), fn.fq, "no True answer", "has_ignore_comment can never report an ignore comment")
+    # R20.9: an answer "no" given BEFORE the lines are examined (a fast path) needs a test that no line can match: a substring
+    # test for a text that every match of the pattern contains (a mandatory factor, read off the regex AST), or a search
+    # of the whole text with the pattern itself
+    before = [r for r in walk_own(fn.node) if isinstance(r, ast.Return) and r not in trues and r.lineno < loop.lineno]
+    for r in before:
+        worlds = pa.worlds_at(r)
+        ok, why = bool(worlds) and line is not None, "unreachable" if not worlds else "no per-line pattern found"
+        factors = _mandatory_factors(line[0]) if line else []
+        for w in worlds if line else []:
+            justified = False
+            for f in w.facts:
+                if f[0] != "lit":
+                    continue
+                txt = plain(f[1])
+                m_ = re.fullmatch(r"in\((?P<lit>'(?:[^'\\]|\\.)*'|\"(?:[^\"\\]|\\.)*\"), *" + re.escape(src) + r"\)", txt)
+                if m_ and not f[2]:
+                    lit = ast.literal_eval(m_.group("lit"))
+                    if lit and any(lit in run for run in factors):
+                        justified, why = True, f"{lit!r} is part of every match of the pattern"
+                    else:
+                        why = (f"the fast path answers 'no ignore comment' for every text without {lit!r}, but the pattern {line[0]!r} also matches comments that do not contain it "
+                               f"(what every match contains: {factors}): `#pyrefact: ignore`, `# pyrefact : ignore` are not honoured in a file that has no other spelling")
+                if not f[2] and (".search(" in txt or ".findall(" in txt) and txt.rstrip(")").endswith(src) and "line" not in txt:
+                    justified, why = True, "the whole text was searched with a pattern"
+            ok = ok and justified
+        res.decide(ok, "R20.9", fn.loc(r), fn.fq, f"{norm(r)} # answer before the lines are examined", why)
+    if not before:
+        res.ok("R20.9", fn.loc(), fn.fq, "answers before the lines are examined", "none", trivial=True)
     # the loop may not stop early on a non-matching line
     early = [n for n in walk_body(loop.body) if isinstance(n, (ast.Break,)) or (isinstance(n, ast.Return) and n not in trues)]
     res.decide(not early, "R20.5", fn.loc(loop), fn.fq, "all lines examined",
@@ -808,6 +865,9 @@ def _whitespace_only(prog, fn, pa, node, bounds: set) -> bool:
 from ..selftest import Variant  # noqa: E402
 
 VARIANTS = [
+    Variant("fast-path-tests-one-spelling-of-the-comment", "FIRE", "core", '    pattern = re.compile(r"#\\s*pyrefact\\s*:\\s*(skip_file|ignore)")\n', '    if "# pyrefact:" not in source:\n        return False\n' + '    pattern = re.compile(r"#\\s*pyrefact\\s*:\\s*(skip_file|ignore)")\n', "R20.9"),
+    Variant("fast-path-tests-a-word-every-comment-contains", "SILENT", "core", '    pattern = re.compile(r"#\\s*pyrefact\\s*:\\s*(skip_file|ignore)")\n', '    if "pyrefact" not in source:\n        return False\n' + '    pattern = re.compile(r"#\\s*pyrefact\\s*:\\s*(skip_file|ignore)")\n'),
+    Variant("fast-path-tests-the-colon-with-the-word", "FIRE", "core", '    pattern = re.compile(r"#\\s*pyrefact\\s*:\\s*(skip_file|ignore)")\n', '    if "pyrefact:" not in source:\n        return False\n' + '    pattern = re.compile(r"#\\s*pyrefact\\s*:\\s*(skip_file|ignore)")\n', "R20.9"),
     Variant("remove-nodes-forgets-ignore-comments", "FIRE", "processing",
             "    if any(core.has_ignore_comment(source, core.get_charnos(node, source)) for node in nodes):\n        return source  # Code on a line with a pyrefact: ignore comment stays\n\n", "", "R20.3"),
     Variant("renaming-splices-into-annotated-lines", "FIRE", "fixes",
